@@ -220,6 +220,40 @@ def handle : Handler := fun j => do
     let v := match tagFileVersion content q.name with | .ok (some v) => some v | _ => none
     if !(← guardOk j [v]) then return unsupportedAns
     pure (apiAnswer (findTaggedFromFile C q content))
+  | "runHistory" =>
+    -- `cmds`: [{name, version, unsetup, lines:[{name, version, vexpr, lineVro, lineTags, lineKeep, optional}]}] on ONE Eups object;
+    -- `env`: [[name, {version, flavor, stack}]] set up beforehand.  Answer: per command the outcome and the environment after it.
+    let C ← ctxOfJson j
+    let keep ← jbool j "keep"
+    let flavors ← jstrs j "flavors"
+    let vro ← jstrs j "vro"
+    let prodOf (a : Json) : Except String Prod := do pure ⟨← jstr a "version", ← jstr a "flavor", ← jnat a "stack"⟩
+    let env0 ← (← jarr j "env").mapM fun p => do
+      match (← p.getArr?).toList with
+      | [n, a] => pure (Str.ofString (← n.getStr?), ← prodOf a)
+      | _ => throw "env: expected [name, product]"
+    let cmds ← (← jarr j "cmds").mapM fun c => do
+      let lines ← (← jarr c "lines").mapM fun l => do
+        let lv ← (match l.getObjVal? "lineVro" with
+          | .ok Json.null => pure none
+          | .error _ => pure none
+          | .ok v => do pure (some (← strsOf v)) : Except String (Option (List Str)))
+        pure ({ name := ← jstr l "name", version := ← jstrOpt l "version", vexpr := ← jstrOpt l "vexpr", lineVro := lv,
+                lineTags := ← jstrs l "lineTags", lineKeep := ← jbool l "lineKeep", optional := ← jbool l "optional" } : LineSpec)
+      pure ({ name := ← jstr c "name", version := ← jstrOpt c "version", lines := lines, unsetup := ← jbool c "unsetup" } : HistCmd)
+    if !(← guardOk j (cmds.flatMap fun c => c.version :: c.lines.flatMap fun l => [l.version, l.vexpr])) then return unsupportedAns
+    let prodJ (p : Prod) : Json := Json.mkObj [("version", ofStr p.version), ("flavor", ofStr p.flavor), ("stack", (p.stack : Nat))]
+    let rec go (s : HistState) (cs : List HistCmd) (acc : List Json) : List Json :=
+      match cs with
+      | [] => acc.reverse
+      | c :: rest =>
+        let (s1, o) := histStep C keep flavors vro s c
+        let oj := match o with
+          | .ok p raised => Json.mkObj [("out", "ok"), ("top", prodJ p), ("raised", raised)]
+          | .failed => Json.mkObj [("out", "failed")]
+        let ej := Json.arr (s1.env.map fun kv => Json.arr #[ofStr kv.1, prodJ kv.2]).toArray
+        go s1 rest (Json.mkObj [("result", oj), ("env", ej)] :: acc)
+    pure (Json.mkObj [("steps", Json.arr (go ⟨env0, []⟩ cmds []).toArray)])
   | "tableLineVro" =>
     let lv ← (match j.getObjVal? "lineVro" with
       | .ok Json.null => pure none
